@@ -12,7 +12,8 @@ import itertools
 from props import sched_common
 
 PID = 'C15'
-GENERATORS = [('version2coq.py', 'Gen/VersionGen.v'), ('diff2coq.py', 'Gen/DiffGen.v')]
+GENERATORS = [('version2coq.py', 'Gen/VersionGen.v'), ('diff2coq.py', 'Gen/DiffGen.v'),
+              ('buildnames2coq.py', 'Gen/BuildNamesGen.v')]
 EXTRA_CONE = ['Model/StoreIO.v']
 META = {
     'text': 'Theorems over Gallina definitions regenerated on every run from dawgie.Version by a fail-closed ast translator: <= is the lexicographic order, total/transitive/antisymmetric, the six operators and newer() mutually consistent, for all integer triples (unbounded Z). The build half (which algorithms a (re)load schedules) is proved over the scheduler model and tied to schedule.build/_diff by correspondence on generated engines. Persisted side: shelve.versions() is modelled (Catalogue.versions); util.dissect is proved to invert util.construct on names without a colon (unbounded: every name, parent id and integer version triple), hence every value row whose parent chain resolves is listed with exactly the names and versions it was registered with (C15_persisted_listed); tied to the real shelve back-end by the store correspondence and an oracle from the registered names; the order laws are also evaluated on every class that carries a version (Algorithm, Analyzer, Regression, Value, StateVector).',
@@ -120,6 +121,7 @@ def run(ctx):
 
     # ---- generate + prove ---------------------------------------------------
     okd, msgd = ctx.generate('diff2coq.py', 'Gen/DiffGen.v')
+    okn, msgn = ctx.generate('buildnames2coq.py', 'Gen/BuildNamesGen.v')
     ok, msg = ctx.generate('version2coq.py', 'Gen/VersionGen.v')
     proofs_ok = False
     if not ok:
@@ -182,3 +184,7 @@ def run(ctx):
     ctx.trust('persisted side: hand model Catalogue.versions of shelve.versions(), tied by the store '
               'correspondence (real shelve back-end in a temp dir) and an oracle from the registered names')
     store_common.versions_study(ctx)
+
+    # ---- end to end on names: registrations -> versions() -> current() -> build() ----
+    from props import buildnames_common
+    buildnames_common.names_study(ctx, okn, msgn, proofs_ok)
